@@ -12,6 +12,8 @@ import (
 	"github.com/sirupsen/logrus"
 
 	"github.com/free5gc/chf/ccs_diameter/datatype"
+	"github.com/free5gc/chf/cdr/asn"
+	"github.com/free5gc/chf/cdr/cdrConvert"
 	"github.com/free5gc/chf/cdr/cdrType"
 	"github.com/free5gc/chf/internal/abmf"
 	"github.com/free5gc/chf/internal/cgf"
@@ -172,6 +174,32 @@ func Snapshot(supi string) Snap {
 	sort.Strings(s.Sessions)
 	s.NRecords = len(ue.Records)
 	return s
+}
+
+// RecordSizeWith: the encoded size of the session's open record as it stands (units nil) or as it would be with the
+// usage of a request appended the way UpdateCDR appends it; the record is left as it was.
+func RecordSizeWith(supi, ref string, units []models.ChfConvergedChargingMultipleUnitUsage) int {
+	ue, ok := chf_context.GetSelf().ChfUeFindBySupi(supi)
+	if !ok {
+		return -1
+	}
+	ue.CULock.Lock()
+	defer ue.CULock.Unlock()
+	r := ue.Cdr[ref]
+	if r == nil || r.ChargingFunctionRecord == nil {
+		return -1
+	}
+	rec := r.ChargingFunctionRecord
+	n := len(rec.ListOfMultipleUnitUsage)
+	if len(units) > 0 {
+		rec.ListOfMultipleUnitUsage = append(rec.ListOfMultipleUnitUsage[:n:n], cdrConvert.MultiUnitUsageToCdr(units)...)
+	}
+	b, err := asn.BerMarshalWithParams(&r, "explicit,choice")
+	rec.ListOfMultipleUnitUsage = rec.ListOfMultipleUnitUsage[:n]
+	if err != nil {
+		return -1
+	}
+	return len(b)
 }
 
 // SetAcctRequestNum puts the subscriber's credit-control request counter of a rating group where that many requests
